@@ -26,6 +26,6 @@ def main(tier, args):
     vf.finish(PID, tier, res, t0,
               rule="(S) stateless DFS over all interleavings of 1-2 submitting threads (runInLoop) with the real loop's start/iteration/exit/re-run/destruction on both back-ends, "
                    "sync points = recursive mutex, eventfd read/write, epoll_wait/select; preemption bound %d (plain), %d (ASan), %d (TSan on every schedule); deadlock with queued work = lost wake-up. "
-                   "(H) BFS over all single-thread histories of runNext/runInLoop/run with 6 callable behaviours (spawn child, cancel following/previous in batch, exit), cancel(id), loop passes (forever/once), then destruction; depth %d, canonical state = queue contents + wake-up flag" % (bp, ba, bt, depth),
+                   "(H) BFS over all single-thread histories of runNext/runInLoop/run with 7 callable behaviours (spawn child via either entry point, cancel following/previous/own id in batch, exit), cancel(id), loop passes (forever/once), then destruction; depth %d, canonical state = queue contents + wake-up flag" % (bp, ba, bt, depth),
               assumptions=["cross-thread submission uses runInLoop only; exitLoop/cancel are issued on the loop thread (DESIGN 1.7)",
                            "an idle loop in the single-threaded history harness receives an exit request (interposed epoll_wait/select)"])
